@@ -105,4 +105,16 @@ TEXT.update({
              "reflection-mediated accesses are not in the table.",
         technique="Lean 4 proof (lockset / Eraser lemma) instantiated on a regenerated access table by kernel evaluation; race-detector matrix as search"),
 })
+TEXT.update({
+    "C05": dict(
+        text="Lean theorems about the WaitCond transition system (waiter, watcher goroutine, locker, arbitrary environment of cancellations / broadcasting mutators / spurious "
+             "wake-ups): nil is returned only right after the predicate evaluated to true under the lock; an error only if the context is cancelled; NO LOST WAKE-UP: a parked "
+             "un-notified waiter has a false predicate and, if cancelled, a watcher that is still going to broadcast; and two liveness theorems proved with a ranking function "
+             "over weakly fair infinite runs: a cancelled context leads to return, a true predicate leads to return. The faulty configurations (watcher without lock, mutator "
+             "without broadcast) have witness traces. The model's configuration is computed from the regenerated skeletons (gen_cfg_is_good). A failed Get does not advance "
+             "the consumer (Buffer model). Tied by forced schedules through hook-point gates on WaitCond and on a blocking Buffer Get.",
+        note="Trusted: Lean kernel + 3 standard axioms; sync.Cond / mutex semantics modelled; scheduler weak fairness assumed for liveness; the finite one-waiter model's inductive steps "
+             "are discharged by kernel evaluation over its whole state table; tie = T1 facts + this run's gate scripts.",
+        technique="Lean 4 proof (inductive invariant + ranking-function leadsTo over weakly fair runs) + regenerated configuration facts + forced-schedule differential"),
+})
 NOT_YET = {}
